@@ -207,6 +207,40 @@ def ops_oracle(c, bad):
             pre.setdefault(to[k], []).append(sorted(to[t] for t in adj[k]))
         if set(got) != set(pre) or any(got[k] not in pre[k] for k in got):
             bad.append(("ops-Rename", "Rename (two nodes with one new name) returned %r" % got))
+    # a call sequence on ONE *Graph that the caller edits in between: every result against the
+    # content the graph has at that moment
+    for n, st in enumerate(oo.get("gseq") or []):
+        pre = "graph sequence %s, step %d (%s)" % (oi.get("gseq"), n, st["op"])
+        if st.get("bad", "").startswith("panic"):
+            bad.append(("gseq-panic", "%s: %s" % (pre, st["bad"][:120])))
+            break
+        ck_, ca = [e["k"] for e in st.get("cur") or []], {e["k"]: e["adj"] for e in st.get("cur") or []}
+        names = set(ck_) | {t for k in ck_ for t in ca[k]}
+        if not st.get("same", True):
+            bad.append(("gseq-input-modified", "%s changed the graph it was called on" % pre))
+            break
+        if st["op"] == "R":
+            want = {t: sorted(k for k in ck_ for x in ca[k] if x == t) for t in names}
+            got = {e["k"]: e["adj"] for e in st.get("got") or []}
+            if got != want:
+                bad.append(("gseq-reverse", "%s: Reverse returned %r, the reverse of the graph as it is now is %r" % (pre, got, want)))
+                break
+        elif st["op"] == "T":
+            want = {t: sorted(ca.get(t, [])) for t in names}
+            got = {e["k"]: e["adj"] for e in st.get("got") or []}
+            if got != want:
+                bad.append(("gseq-reverse-twice", "%s: reversing twice gave %r, the graph is %r" % (pre, got, want)))
+                break
+        elif st["op"] == "V":
+            rk = sorted(names)
+            radj = {t: sorted(k for k in ck_ for x in ca[k] if x == t) for t in names}
+            want = verdict_of(rk, radj)
+            if st.get("v") != want:
+                bad.append(("gseq-revlayout-verdict", "%s: RevLayout says %r, the graph as it is now is %r" % (pre, st.get("v"), want)))
+                break
+            if st.get("bad"):
+                bad.append(("gseq-revlayout", "%s: %s" % (pre, st["bad"])))
+                break
     if o.get("v") != "ok":
         return
     order = topo_or_none(keys, adj)
@@ -520,10 +554,20 @@ def coq_ops(c, keys):
                                                          for x in st.get("nodes") or []), max(st["wh"][0], 0), st["wh"][1]))
         elif st["op"] == "!":
             sops.append("SLay [] 0 (-1)")
-    return "(mkO %d %s %s %s %s %s %s %d %s %s %s [%s] (%d, %d, %d)%%nat %s [%s])" % (
+    gsteps = []
+    for st in oo.get("gseq") or []:
+        cur = coq_graph((e["k"], e["adj"]) for e in st.get("cur") or [])
+        if st["op"] == "R":
+            gsteps.append("GSRev %s %s" % (cur, coq_graph((e["k"], e["adj"]) for e in st.get("got") or [])))
+        elif st["op"] == "T":
+            gsteps.append("GSRev2 %s %s" % (cur, coq_graph((e["k"], e["adj"]) for e in st.get("got") or [])))
+        elif st["op"] == "V":
+            gsteps.append("GSLay %s %d" % (cur, VCLS.get(st.get("v"), 9)))
+    return "(mkO %d %s %s %s %s %s %s %d %s %s %s [%s] (%d, %d, %d)%%nat %s [%s] [%s])" % (
         max(oi["rm"], 0) if oi["rm"] >= 0 else 4294967295, coq_gobs(oo["rm"]), cl(oi["sub"]), coq_gobs(oo["sub"]), ren, err,
         "true" if oi.get("inj") else "false", res, coq_gobs(oo["ren"]), cl(oi["clo"]),
-        "true" if oo.get("clobad") else "false", nodes, e, cr, l, "true" if start_rev else "false", "; ".join(sops))
+        "true" if oo.get("clobad") else "false", nodes, e, cr, l, "true" if start_rev else "false", "; ".join(sops),
+        "; ".join(gsteps))
 
 
 def to_coq(c):
